@@ -354,6 +354,10 @@ class Calls:
                 if fi is not None:
                     if 'contextmanager' in fi.decorators:
                         return ('contextmanager', fi, recv, args, kwargs)
+                    if 'staticmethod' in fi.decorators:
+                        return self.call_package(ex, fi, list(args), kwargs)
+                    if 'classmethod' in fi.decorators:
+                        return self.call_package(ex, fi, [St('class', cls)] + list(args), kwargs)
                     return self.call_package(ex, fi, [recv] + list(args), kwargs)
                 # not a method: maybe a callable stored in a field
                 f = ex.engine.model.getattr(ex, recv, name)
